@@ -78,6 +78,8 @@ def pipe_rule(repo, res, rule="PIPE"):
 
 
 def run(repo, res, tier):
+    from . import c02
+    c02.postorder(repo, res)  # the automaton handed to the emitter is built from the fully expanded grammar (definitions expanded in dependency order)
     pipe_rule(repo, res)
     sk_bash.walk_rule(repo, res, tier)
     sk_bash.fb_rule(repo, res, tier)
